@@ -344,18 +344,28 @@ class Parser:
         for n, code in enumerate(mac.args):
             arg_extr = arg = []
             delim = False
-            tok = buf.skip_space()
+            # language switches skipped together with space: must be kept,
+            # if an optional argument is not present
+            skipped = []
+            tok = buf.cur()
+            while buf.is_space(tok):
+                if type(tok) is defs.LanguageToken:
+                    skipped.append(tok)
+                tok = buf.next()
             if tok:
                 pos = tok.pos
             if code == '*':
                 if tok and tok.txt == '*':
                     arg_extr = arg = [tok]
                     buf.next()
+                else:
+                    buf.back(skipped)
             elif code == 'O':
                 if tok and tok.txt == '[':
                     delim = True
                     arg_extr = arg = self.arg_buffer(buf, pos, end=']').all()
                 else:
+                    buf.back(skipped)
                     if n < len(mac.defaults):
                         # NB: do not use positions from macro definition
                         arg = [copy.copy(t) for t in mac.defaults[n]]
